@@ -126,6 +126,20 @@ def populated_prefix():
     ]
 
 
+def genesis_values(work):
+    """the genesis values of spec/GenesisMC.tla (each checked GenValid by TLC): inputs for 'two nodes that start from the same genesis'"""
+    consts = configs.mk(Accts=S(['a1', 'a2']), Dids=S(['d1', 'd2', 'dc']), DocNames=S(['A1']), Keys=S(['k1']), VmNames=S(['v1']))
+    cfg = os.path.join(work, 'genesis.cfg')
+    vlib.write_cfg(cfg, 'GSpec', consts, (), ['AllValid', 'GenDump'])
+    rc, out, wall = vlib.run_tlc(work, 'GenesisMC.tla', 'genesis.cfg', workers=2, heap='2g', timeout=600)
+    err = vlib.tlc_failed(out)
+    if err:
+        raise Inconclusive('GenesisMC.tla: %s\n%s' % (err, out[-2000:]))
+    vals = [v[1] for v in printed_values(out, 'GENESIS')]
+    uniq = {json.dumps(v, sort_keys=True): v for v in vals}
+    return [uniq[k] for k in sorted(uniq)]
+
+
 def shape_history(txs, shape):
     out, i = [], 0
     for n in shape:
@@ -399,6 +413,12 @@ def replicas_check(tier, seed):
                 sb = lst[(pi * 7 + seed + len(lst) // 2) % len(lst)]
                 hist, noise = hists[(pi + seed) % len(hists)]
                 jobs.append(dict(id='C09-%s-%d' % ('x'.join(map(str, shp)), pi), cfg={}, blocks=shape_history(hist, list(shp)), noise=noise, schedA=sa, schedB=sb))
+        # genesis files are input: replicas started from every genesis value of GenesisMC.tla (ordinary entries next to legal oddities such as zero
+        # timestamps, tombstones, legacy entries, inconsistent counters), a short history on top
+        gvals = genesis_values(work)
+        base = [j for j in jobs if sum(len(b) for b in j['blocks']) >= 2][:1] or jobs[:1]
+        for gi, g in enumerate(gvals if not q else gvals[(seed % 2)::2]):
+            jobs.append(dict(base[0], id='C09-genesis-%d' % gi, cfg=dict(absgen=g)))
         log('C09: %d schedules from TLC, %d jobs (each: replica A in-process, replica B in a GOMAXPROCS=1 subprocess)' % (len(scheds), len(jobs)))
         traces = run_harness_jobs(work, harness, 'replicas', jobs)
         mc_wrapper(work, 'MCReplicasTrace', 'ReplicasTrace', dict(ShapesC='{}'))
@@ -410,7 +430,7 @@ def replicas_check(tier, seed):
                    evaluations=len(jobs), distinct_nontrivial=len({json.dumps([j['schedA'], j['schedB']]) for j in jobs}),
                    rule='noise schedules are complete runs of Replicas.tla (<=2 noise actions out of Check/Recheck/Simulate of 3 noise transactions, Query, clean Restart) enumerated by TLC for shapes %s; '
                         'a job pairs two different schedules; non-trivial: at least one replica has noise and the two schedules differ' % shapes,
-                   exhaustive=False, schedules_enumerated=len(scheds), shapes=shapes)
+                   exhaustive=False, schedules_enumerated=len(scheds), shapes=shapes, genesis_values_enumerated=len(gvals))
         return conclude(pid, tier, seed, t0, viol, drift, cov,
                         ['hardware parallelism is varied only through GOMAXPROCS (16 vs 1) and process identity/start time',
                          'noise transactions are accepted transactions left out of the blocks, alone and merged with their successors'],
